@@ -37,16 +37,29 @@ impl<'a> stub::Stub for Backend<'a> {
 /// C20: the retry stub re-issues the *identical* request (same Arc) until its policy declines,
 /// passes attempt numbers 1, 2, 3, ... to the policy, and returns the last result unchanged.
 #[kani::proof]
-#[kani::stub(tracing::__macro_support::__is_enabled, crate::verif_kani_support::tracing_never_enabled)]
-#[kani::stub(tracing::__macro_support::MacroCallsite::interest, crate::verif_kani_support::tracing_interest_never)]
-#[kani::stub(tracing::Event::dispatch, crate::verif_kani_support::tracing_no_dispatch)]
+#[kani::stub(
+    tracing::__macro_support::__is_enabled,
+    crate::verif_kani_support::tracing_never_enabled
+)]
+#[kani::stub(
+    tracing::__macro_support::MacroCallsite::interest,
+    crate::verif_kani_support::tracing_interest_never
+)]
+#[kani::stub(
+    tracing::Event::dispatch,
+    crate::verif_kani_support::tracing_no_dispatch
+)]
 #[kani::stub(std::time::Instant::now, crate::verif_kani_support::fake_now)]
 #[kani::unwind(5)]
 fn k5_retry_attempts_numbered_and_last_result() {
     let calls = Cell::new(0u32);
     let same = Cell::new(true);
     let first_ptr = Cell::new(std::ptr::null());
-    let results: [(bool, u32); 3] = [(kani::any(), kani::any()), (kani::any(), kani::any()), (kani::any(), kani::any())];
+    let results: [(bool, u32); 3] = [
+        (kani::any(), kani::any()),
+        (kani::any(), kani::any()),
+        (kani::any(), kani::any()),
+    ];
     let decisions: [bool; 3] = [kani::any(), kani::any(), false]; // retry after attempt i? (declines by attempt 3: the bound)
     let attempts_ok = Cell::new(true);
     let seen_results_ok = Cell::new(true);
@@ -67,19 +80,53 @@ fn k5_retry_attempts_numbered_and_last_result() {
         n_policy.set(k + 1);
         decisions[if k < 3 { k as usize } else { 2 }]
     };
-    let retry = Retry::new(Backend { calls: &calls, same_request: &same, first_ptr: &first_ptr, results }, policy);
+    let retry = Retry::new(
+        Backend {
+            calls: &calls,
+            same_request: &same,
+            first_ptr: &first_ptr,
+            results,
+        },
+        policy,
+    );
     crate::verif_kani_support::set_now(any_instant());
-    let ctx = context::Context { deadline: any_instant(), trace_context: Default::default() };
+    let ctx = context::Context {
+        deadline: any_instant(),
+        trace_context: Default::default(),
+    };
     let req: u32 = kani::any();
     let out = run(retry.call(ctx, req));
     let n = calls.get();
     kani::cover!(n == 3, "reachable: three attempts");
-    let expect_n = if !decisions[0] { 1 } else if !decisions[1] { 2 } else { 3 };
-    assert!(n == expect_n && n_policy.get() == n, "C20: one backend call and one policy consultation per attempt, until the policy declines");
-    assert!(attempts_ok.get(), "C20: attempt numbers passed to the policy are 1, 2, 3, ...");
-    assert!(same.get(), "C20: every attempt carries the identical request (same Arc)");
-    assert!(seen_results_ok.get(), "C20: the policy sees each attempt's own result");
+    let expect_n = if !decisions[0] {
+        1
+    } else if !decisions[1] {
+        2
+    } else {
+        3
+    };
+    assert!(
+        n == expect_n && n_policy.get() == n,
+        "C20: one backend call and one policy consultation per attempt, until the policy declines"
+    );
+    assert!(
+        attempts_ok.get(),
+        "C20: attempt numbers passed to the policy are 1, 2, 3, ..."
+    );
+    assert!(
+        same.get(),
+        "C20: every attempt carries the identical request (same Arc)"
+    );
+    assert!(
+        seen_results_ok.get(),
+        "C20: the policy sees each attempt's own result"
+    );
     let (ok, v) = results[(n - 1) as usize];
-    assert!(match out { Ok(x) => ok && x == v, Err(_) => !ok }, "C20: the last result is returned unchanged");
+    assert!(
+        match out {
+            Ok(x) => ok && x == v,
+            Err(_) => !ok,
+        },
+        "C20: the last result is returned unchanged"
+    );
 }
-
